@@ -28,7 +28,7 @@ ASSUMPTIONS = [
     "two blocks are equally long the statement is silent and the maximum of either sliding family is accepted",
     "values agree to 1e-9 relative; composition-only is judged to 1e-12 relative",
 ]
-REQUIRED = {"all": ["regime:uncharged", "regime:one_charge_type", "regime:no_neutrals", "regime:mixed_lt18_neutrals",
+REQUIRED = {"all": ["salted_objects", "regime:uncharged", "regime:one_charge_type", "regime:no_neutrals", "regime:mixed_lt18_neutrals",
                     "regime:mixed_ge18_neutrals", "boundary_n0_17", "boundary_n0_18", "tie_block_lengths",
                     "permutant_validated", "permutant_after_value_same_object", "segregated_presentations"]}
 NMAX = {"quick": 24, "thorough": 40}
